@@ -357,6 +357,8 @@ func vSmallSettings(vocab string, filler int) {
 	vSmallFiller = filler
 }
 
+func vSmallSetReplace(on bool) { vSmallReplace = on }
+
 func vSmallClassifier(ci int, t float64) *Classifier {
 	c := NewClassifier(t)
 	if vSmallFiller > 0 {
@@ -373,10 +375,24 @@ func vSmallClassifier(ci int, t float64) *Classifier {
 		}
 	}
 	for j, sh := range vSmallCorpusShapes[ci] {
+		if vSmallReplace {
+			// history: every document is first added with another text under the same category/name/variant
+			// and then REPLACED by its real text
+			w := vShapeWords(sh)
+			decoy := make([]string, 0, len(w)+2)
+			for k := len(w) - 1; k >= 0; k-- {
+				decoy = append(decoy, w[k])
+			}
+			decoy = append(decoy, w[0], w[len(w)-1])
+			c.AddContent("License", fmt.Sprintf("D%d", j), "license.txt", []byte(strings.Join(decoy, " ")))
+		}
 		c.AddContent("License", fmt.Sprintf("D%d", j), "license.txt", []byte(strings.Join(vShapeWords(sh), " ")))
 	}
 	return c
 }
+
+// vSmallReplace (job parameter replace=yes): see vSmallClassifier.
+var vSmallReplace bool
 
 // vSmallAlphabet is the input alphabet of the small scope: vocabulary + OOV.
 var vSmallAlphabet = []string{"aa", "bb", "cc", "zqoov"}
